@@ -24,18 +24,19 @@ decreasing_by
     | (have := Ty.w_lt_wl ‹_ ∈ _›; omega)
 
 /-- Fragment of `C01_sound_partial`: hereditarily no `Iterable[..]` (its instance rule is an assignability question about an inferred
-    type, and is genuinely unsound).  `Type[T]` is allowed; its content `T` must lie in the fragment of
+    type, and is genuinely unsound); with the exempt rule switched on (`sfh = true`) also no `Struct` (the rule
+    lets a Struct accept a Hash type on key type and size alone — the stated exclusion of C01).  `Type[T]` is allowed; its content `T` must lie in the fragment of
     transitivity (`Ty.TF`, added as a separate condition `Ty.TypTF`), because soundness for `Type[..]` IS transitivity (C03). -/
-def Ty.Frag (t : Ty) : Prop :=
+def Ty.Frag (t : Ty) (sfh : Bool) : Prop :=
   match t with
   | .iterable _ => False
   | .typ t' => Ty.TF t'
-  | .array e _ => Ty.Frag e
-  | .hash k v _ => Ty.Frag k ∧ Ty.Frag v
-  | .tuple ts _ => ∀ t', ∀ (_ : t' ∈ ts), Ty.Frag t'
-  | .struct ms => ∀ m, ∀ (_ : m ∈ ms), Ty.Frag m.2.2
-  | .variant ts => ∀ t', ∀ (_ : t' ∈ ts), Ty.Frag t'
-  | .optional t' | .notUndef t' | .sensitive t' => Ty.Frag t'
+  | .array e _ => Ty.Frag e sfh
+  | .hash k v _ => Ty.Frag k sfh ∧ Ty.Frag v sfh
+  | .tuple ts _ => ∀ t', ∀ (_ : t' ∈ ts), Ty.Frag t' sfh
+  | .struct ms => sfh = false ∧ ∀ m, ∀ (_ : m ∈ ms), Ty.Frag m.2.2 sfh
+  | .variant ts => ∀ t', ∀ (_ : t' ∈ ts), Ty.Frag t' sfh
+  | .optional t' | .notUndef t' | .sensitive t' => Ty.Frag t' sfh
   | _ => True
 termination_by t.w
 decreasing_by
